@@ -67,7 +67,7 @@ Allowed(x, obs) ==
   /\ CASE x = "ok" -> obs.alive /\ obs.codes = <<200>>
        [] x = "okmedia" -> obs.alive /\ obs.codes = <<200, 200, 200>>
        [] x = "alive" -> obs.alive /\ obs.codes = <<>>
-       [] x = "closed" -> ~obs.alive /\ Len(obs.codes) <= 1 /\ All200(obs.codes)
+       [] x = "closed" -> ~obs.alive /\ Len(obs.codes) <= 3 /\ All200(obs.codes)   \* late answers to earlier requests may precede the end
        [] x = "any" -> Len(obs.codes) <= 3
 
 (* Outcomes the model explores for an expectation: does the session stay?                        *)
